@@ -5,13 +5,13 @@ from lib import gen, sysrun
 from lib.sysrun import Case
 
 LEVEL = "proof"
-CHECKER = "lake build KalignModel.Props.C07Prof && lake env lean KalignModel/Audit/C07.lean"
+CHECKER = "lake build KalignModel.Props.C07All && lake env lean KalignModel/Audit/C07.lean"
 NEG1 = "bf800000"
 
 
 def theorems():
     out = []
-    for f in ("C07.theorems", "C07Opt.theorems", "C07Prof.theorems"):
+    for f in ("C07.theorems", "C07Opt.theorems", "C07Prof.theorems", "C07Soft.theorems", "C07SoftProf.theorems"):
         p = os.path.join(C.LEAN, "KalignModel", "Props", f)
         if os.path.exists(p):
             out += [l.strip() for l in open(p) if l.strip() and not l.startswith("#")]
@@ -113,7 +113,7 @@ def run(ctx):
                         "pairs (substitutions, internal indels, overhangs), all types and user penalties, lengths on both sides of 500, groups of 1..3 identical copies per side; only "
                         "pairs whose optimum is certified by the reference DP are compared; non-trivial = distinct certified cases whose optimum contains a gap")
     thms = theorems()
-    ok = C.lean_obligations(ctx, "C07", thms, module="C07Prof") if thms else False
+    ok = C.lean_obligations(ctx, "C07", thms, module="C07All") if thms else False
     if not thms:
         ctx.obligations.append(dict(name="Props/C07 theorems", ok=False, why="theorem list missing"))
     kvh = C.build_harness("asan")
@@ -123,6 +123,12 @@ def run(ctx):
     if ctx.quick:
         corpus = corpus[:300] + [l for l in corpus if "fallthrough" in l]
     diffs = C.unit_correspondence(ctx, kvh, corpus + ops, "dp")
+    # the C07Soft theorems are about the software binary32: tie it to C `float` here as well (operand pairs) and run the whole pipeline on it
+    diffs += C.unit_correspondence(ctx, kvh, C.gen_ops("gen_f32.py", ctx.seed + 300, 12000 if ctx.quick else 200000), "softfloat")
+    sl = [l.replace("kalign_sys ", "kalign_sys_soft ", 1) for l in C.gen_ops("gen_pipe.py", 11 * ctx.seed + 5, 1)]
+    d3 = C.correspond(kvh, sl[::6] if ctx.quick else sl, chunks=C.NCPU, timeout=3000)
+    ctx.count("unit_ops_pipeline_softfloat", len(sl[::6] if ctx.quick else sl))
+    diffs += d3
     known_witness(ctx, kvh)
     # oracle
     todo = []
